@@ -7,8 +7,11 @@ Oracle on the implementation (independent of the model): for every observed page
    + #table-rendered footnote/source rows  ≤  nrow,
 unless the page holds a single data row.  The line lower bound of a data row is
 max over its cells of ⌈width(text shown in the cell, the cell's font, the cell's size) / the column's width⌉,
-measured here with the real get_string_width on the text read back from the output — not rtflite's own estimate,
-and whatever the dtype of the column.
+measured here with Pillow directly, the font file opened at the cell's exact size (`true_width`; not rtflite's own
+get_string_width, which the pagination under test uses too), on the text read back from the output — not rtflite's
+own estimate, and whatever the dtype of the column.  The fit stream (gen_fit) places cells 0.05–0.2 % above (and
+below) a whole multiple of their column's width at sizes 6..24, so that the last per-mille of the measurement at the
+cell's OWN size decides the row's line count.
 Group values need not be visible texts: '' / blanks give a blank spanning row, which is a row of the page like any
 other (counted from the OUTPUT); the edge stream (gen_edge) draws them, with documents whose groups do not straddle
 pages, so that an unreserved heading row cannot hide behind a continuation heading.
@@ -21,6 +24,7 @@ from __future__ import annotations
 import math
 
 from .. import common, docgen, laygen, layfamily, rtfread
+from . import c14_fit
 
 MANIFEST = dict(
     text="Lean theorems over the pagination + layout model for every table: the reserved load of a page never exceeds "
@@ -32,9 +36,12 @@ MANIFEST = dict(
          "(strings, integers, floats, booleans, dates, datetimes, times, decimals, categoricals, nulls) holding the "
          "row's tallest cell, and with group values of the edge family ('', blanks, null, '-----', 'None', 'nan', "
          "numbers, booleans, the column's name, wrapping texts) at every page_by / subline_by level, in documents "
-         "whose groups do and do not straddle pages (a blank spanning row is a row).",
+         "whose groups do and do not straddle pages (a blank spanning row is a row), and with cells whose exact width "
+         "at their own font (1..10) and size (6..24; scalar, per column, per row) lies 0.05–0.2 % beside a whole "
+         "multiple of their column's width.",
     note="The unchanged code violates C03 in two recorded classes (auto headers, page_by heading rows); the check "
-         "prints KNOWN-FINDING for them and reports any excess beyond what they explain. Pillow widths are measured; "
+         "prints KNOWN-FINDING for them and reports any excess beyond what they explain. Pillow widths are measured by "
+         "the oracle itself (font file opened at the exact size), independently of rtflite.get_string_width; "
          "the text measured for a data cell is the text the real output shows in that cell (read back from the RTF), "
          "at the cell's own font, size and relative column width.",
     technique="Lean 4 proof (accumulator invariant of the greedy fill + reservation accounting) + observation oracle "
@@ -54,8 +61,28 @@ RULE = ("single-section tagged tables, 0..60 rows with 1..4-line rows produced b
         "key columns, the column's own name, values long enough to wrap — at every level and for first / middle / last "
         "groups, a third of them with groups tiled so that none straddles a page (pages start at a group start and are "
         "filled to exactly nrow: no continuation heading could explain an excess); spanning rows of such documents are "
-        "recognised by elimination (every other row is tagged), whatever they show; non-trivial = ≥ 2 pages with at least one page filled to within one row "
+        "recognised by elimination (every other row is tagged), whatever they show; plus fitted tables: fonts 1..10, sizes "
+        "6 / 7 / 8 / 10 / 11 / 12 / 14 / 18 / 24 (and 9, 6.5, 7.5, 16, 20) as scalar, per-column and per-row attributes, "
+        "equal and unequal col_rel_width, portrait / landscape / col_width 0.9275..5.5, in which a third to nine tenths "
+        "of the rows hold a cell whose exact Pillow width at its own font and size is k·(column width)·(1 + m), k = 1..4, "
+        "m in 0.05 %..0.2 % (some with −m), enough of them to fill pages, under per-row sizes most of them also standing "
+        "in an earlier row of the same column at another size; non-trivial = ≥ 2 pages with at least one page filled to within one row "
         "of its capacity; distinct by (strategy, nrow, font, size, rows per page)")
+
+
+def true_width(text, font, size) -> float:
+    """width (inches) of `text` in the metric-compatible file of RTF font `font`, opened by Pillow AT THE EXACT SIZE
+    `size` — the measurement the statement's 'lines a cell needs at its own font and size' refers to.  Pillow is called
+    directly (c14_fit): the oracle does not share rtflite's own `get_string_width` with the pagination it judges, so a
+    measurement that drifts from the real one (another size, a scaled reference size, a cached font of another
+    document) shows as pages holding more lines than nrow."""
+    if not text:
+        return 0.0
+    if not isinstance(font, int):
+        from rtflite.fonts_mapping import FontMapping
+
+        font = FontMapping.get_font_name_to_number_mapping()[font]
+    return c14_fit.width_in(text, font, size)
 
 
 def line_lower_bound(spec, info, i, shown=None):
@@ -77,10 +104,116 @@ def line_lower_bound(spec, info, i, shown=None):
         t = shown[k] if shown is not None else ("" if v is None else docgen.cell_str(spec["df"], ci, v))
         cw = info["col_total"] * rel[k] / rel_sum
         body = spec.get("body") or {}
-        w = laygen.measure(t, laygen.attr_at(body.get("text_font"), i, ci, 1),
-                           laygen.attr_at(body.get("text_font_size"), i, ci, 9))
+        w = true_width(t, laygen.attr_at(body.get("text_font"), i, ci, 1),
+                       laygen.attr_at(body.get("text_font_size"), i, ci, 9))
         lb = max(lb, math.ceil(w / cw - 1e-9))
     return lb
+
+
+# ---- cells whose width sits just beside a whole multiple of their column's width, at the cell's own font and size
+FIT_SIZES = [6, 7, 8, 10, 11, 12, 14, 18, 24, 9, 7.5, 6.5, 16, 20]
+FIT_MARGIN = (0.0005, 0.0020)        # relative distance from the edge k·cw: unambiguous for the exact measurement
+                                     # (floats: 1e-16), inside any measurement drift of the order of 0.1 %
+
+
+def fit_cell(rng, tag, k, cw, font, size, side=1):
+    """text starting with `tag` whose exact Pillow width at (font, size) is k·cw·(1 ± m), m within FIT_MARGIN
+    (`side` = +1: just above the edge, k + 1 lines; −1: just below, k lines).  None if the quantised advances of the
+    font at that size do not allow it within a few draws."""
+    lo, hi = FIT_MARGIN
+    mid = (lo + hi) / 2
+    prefix = tag + " "
+    wp = c14_fit.width_in(prefix, font, size)
+    target = k * cw * (1 + side * mid)
+    if target - wp < 4 * size / 72.0:
+        return None
+    for _ in range(3):
+        t, _w = c14_fit.fit_text(rng, font, size, target - wp, tol=(hi - lo) / 2 * 0.6)
+        t = prefix + t
+        d = side * (c14_fit.width_in(t, font, size) / (k * cw) - 1)
+        if lo <= d <= hi:
+            return t
+    return None
+
+
+def fit_columns(rng, spec, info):
+    """Per-column fonts and sizes (sizes other than the default 9 first), and in many rows one cell fitted with
+    `fit_cell` just above k·(its column's width), k = 1..4 — a row of k + 1 lines that any measurement smaller by
+    0.05–0.2 % counts as k lines; some cells just below the edge (k lines, k + 1 for a larger measurement)."""
+    cols = spec["df"]["cols"]
+    rows = spec["df"]["rows"]
+    first = len(info["hier"]) + len([c for c in cols if c.startswith("COLG")])
+    ncols = len(cols)
+    body = spec["body"]
+    mode = rng.choice(["scalar", "columns", "rows"])
+    if mode == "scalar":
+        sizes = [info["size"]] * ncols
+        fonts = [info["font"]] * ncols
+        body["text_font_size"], body["text_font"] = info["size"], info["font"]
+    else:
+        sizes = [rng.choice(FIT_SIZES[:9]) for _ in range(ncols)]
+        fonts = [rng.choice([info["font"], rng.randint(1, 10)]) for _ in range(ncols)]
+        body["text_font_size"], body["text_font"] = list(sizes), list(fonts)
+    rsz = None
+    if mode == "rows" and rows:
+        # matrix attributes: the size of a cell is its ROW's entry
+        rsz = [[rng.choice(FIT_SIZES[:9]) for _ in range(ncols)] for _ in range(len(rows))]
+        body["text_font_size"] = rsz
+    if len(info["displayed"]) > 1 and rng.random() < 0.5:
+        rel = [1] * ncols
+        for j in range(ncols):
+            rel[j] = rng.choice([0.5, 0.75, 1, 1, 1.5, 2])
+        body["col_rel_width"] = rel
+    rel = laygen.displayed_rel(spec, info)
+    width = {c: info["col_total"] * rel[k] / sum(rel) for k, c in enumerate(info["displayed"])}
+    datacols = [j for j in range(first, ncols) if cols[j] in width]
+    p = rng.choice([0.35, 0.6, 0.9])
+    p_below = rng.choice([0.0, 0.15])
+    kmax = rng.choice([1, 1, 2, 4])
+    done = {}
+    pool = {}
+    fitted = set()
+    for i, r in enumerate(rows):
+        if not datacols or rng.random() >= p:
+            continue
+        j = rng.choice(datacols)
+        sz = rsz[i][j] if rsz else sizes[j]
+        k = rng.randint(1, kmax)
+        side = -1 if rng.random() < p_below else 1
+        tag = f"r{i}c{j - first}"
+        key = (j, sz, k, side)
+        if key in pool and rng.random() < 0.5 and j != first:
+            t = pool[key]                      # the same text again further down the column (no tag: not column 0)
+        else:
+            t = fit_cell(rng, tag, k, width[cols[j]], fonts[j], sz, side)
+            if t is None:
+                continue
+            if j != first:
+                t = t[len(tag) + 1:] if rng.random() < 0.3 and fit_ok(t[len(tag) + 1:], k, width[cols[j]], fonts[j], sz, side) else t
+                pool[key] = t
+        r[j] = t
+        if rsz and j != first and i and rng.random() < 0.8:
+            # the same text stands in an EARLIER row of the column at another size (there it is nowhere near an edge):
+            # the line count of row i is that of the text at row i's size, whatever was measured before
+            cand = [a for a in range(i) if rsz[a][j] != sz and (a, j) not in fitted]
+            i0 = rng.choice(cand) if cand else 0
+            s0 = rsz[i0][j]
+            w0 = c14_fit.width_in(t, fonts[j], s0) / width[cols[j]]
+            if cand and w0 < 5.9 and abs(w0 - round(w0)) > 0.01:
+                rows[i0][j] = t
+                fitted.add((i0, j))
+                done["seen-before-at-another-size"] = done.get("seen-before-at-another-size", 0) + 1
+        fitted.add((i, j))
+        lab = ("above" if side > 0 else "below") + f":k={k}"
+        done[lab] = done.get(lab, 0) + 1
+        done[f"size:{sz:g}"] = done.get(f"size:{sz:g}", 0) + 1
+        done[f"font:{fonts[j]}"] = done.get(f"font:{fonts[j]}", 0) + 1
+    info["fit"] = dict(mode=mode, cells=done)
+
+
+def fit_ok(t, k, cw, font, size, side):
+    d = side * (c14_fit.width_in(t, font, size) / (k * cw) - 1)
+    return FIT_MARGIN[0] <= d <= FIT_MARGIN[1]
 
 
 # ---- typed data columns: every dtype the library renders can hold the row's tallest cell
@@ -206,10 +339,28 @@ class C03(layfamily.Family):
     TYPED = dict(quick=120, thorough=1200)
 
     EDGE = dict(quick=240, thorough=2400)
+    FIT = dict(quick=200, thorough=2000)
 
     def ndocs(self, tier):
         t = "quick" if tier == "quick" else "thorough"
-        return self.BASE[t] + self.TYPED[t] + self.EDGE[t]
+        return self.BASE[t] + self.TYPED[t] + self.EDGE[t] + self.FIT[t]
+
+    def gen_fit(self, rng, k, tier):
+        """documents k ≥ BASE + TYPED + EDGE: body sizes 6..24 (scalar, per column, per row) and fonts 1..10 with cells
+        whose exact width at the cell's own font and size is 0.05–0.2 % above (some: below) a whole multiple of the
+        cell's column width — the line count of such a row is decided by the last per-mille of the measurement"""
+        font = rng.randint(1, 10)
+        size = rng.choice(FIT_SIZES)
+        hm = ["explicit", "none", "explicit2", "no_colheader", "explicit", "default"][k % 6]
+        # two of three documents have no component a known finding could explain an excess with (unless hm = default)
+        strategy = rng.choice(["plain", "plain", "subline"]) if k % 3 else None
+        geometry = rng.choice([None, None, "landscape", dict(col_width=rng.choice([0.9275, 1.5, 2.5, 3.5, 4.5, 5.5]))])
+        nrow = rng.randint(4, 40)
+        spec, info = laygen.gen_spec(rng, strategy=strategy, header_mode=hm, n=rng.randint(nrow, min(60, 3 * nrow + 6)),
+                                     nrow=nrow, font=font, size=size,
+                                     ndata=rng.choice([1, 2, 2, 3, 4]), geometry=geometry, long_rows=False)
+        fit_columns(rng, spec, info)
+        return spec, info
 
     def gen_edge(self, rng, k, tier):
         """documents k ≥ BASE + TYPED: group VALUES of the edge family ('', blanks, null, '-----', 'None', 'nan',
@@ -296,6 +447,13 @@ class C03(layfamily.Family):
         info = o["info"]
         if info.get("edge_keys"):
             return list(o.get("extra") or [])
+        if info.get("fit"):
+            out = ["fit-doc", "fit-doc:" + info["fit"]["mode"]]
+            if not info["fit"]["cells"]:
+                out.append("fit-doc:no-cell-fitted")
+            for lab, cnt in info["fit"]["cells"].items():
+                out.append("fit-cells-doc:" + lab)
+            return out
         if not info.get("typed"):
             return []
         out = ["typed-columns-doc"]
@@ -307,6 +465,8 @@ class C03(layfamily.Family):
 
     def gen(self, rng, k, tier):
         t = "quick" if tier == "quick" else "thorough"
+        if k >= self.BASE[t] + self.TYPED[t] + self.EDGE[t]:
+            return self.gen_fit(rng, k, tier)
         if k >= self.BASE[t] + self.TYPED[t]:
             return self.gen_edge(rng, k, tier)
         if k >= self.BASE[t]:
